@@ -26,9 +26,9 @@ def translate(ctx):
     get_fourier_coefficients with their expected text (axes = space_indices, output shape = spatial_shape, the D >= 2 inference of
     num_points from axis -2, division by the scaling array of the requested mode); both are always attempted"""
     errors = []
-    for name, tr in (("spectral", tr_spectral), ("spectrum", tr_spectrum)):
+    for name, fn in (("spectral", tr_spectral.run), ("spectrum (fft / ifft / get_fourier_coefficients)", tr_spectrum.check_transforms)):
         try:
-            tr.run()
+            fn()
         except Exception as e:
             errors.append(f"{name}: {type(e).__name__}: {e}")
     if errors:
